@@ -8,7 +8,7 @@ from util import call, quiet
 
 REQUIRED_THEOREMS = ['Usid.C01.coordinate_map', 'Usid.C01.coordinate_map_sorted', 'Usid.C01.wrapper_views',
                      'Usid.C01.toggle_involutive', 'Usid.C01.views_after_ops', 'Usid.C01.one_permutation']
-RULE = ('[also: up to 4 dimensions per side, int32 data, a chunked main dataset, verbose=True, the wrapper read lazily, explicit ancillaries as numpy / h5py / dask objects or for one side only, the two-value return form] generator datasets (1-3 dimensions per side, sizes 1-4 biased to 1 and equal sizes, every storage permutation '
+RULE = ('[also: index matrices stored as uint8 / uint16 / int32 / int64; a family with 8-bit indices on a side of more than 255 points] [also: up to 4 dimensions per side, int32 data, a chunked main dataset, verbose=True, the wrapper read lazily, explicit ancillaries as numpy / h5py / dask objects or for one side only, the two-value return form] generator datasets (1-3 dimensions per side, sizes 1-4 biased to 1 and equal sizes, every storage permutation '
         'reachable, dtypes float64/float32/complex128/compound, built with raw h5py); reshape_to_n_dims for '
         'sort_dims x lazy, with HDF5 and in-memory ancillaries; USIDataset(sort_dims in {F,T}) followed by a random '
         'list of toggles and reads; non-trivial = some side has >= 2 dimensions of size > 1 stored in non-identity '
@@ -34,6 +34,20 @@ def generate(seed, tier):
                       # is read (eager / lazy), how explicit ancillaries are handed over
                       'chunked': rng.random() < 0.35, 'verbose': rng.random() < 0.2, 'wrapper_lazy': rng.random() < 0.4,
                       'anc_as': rng.choice(['numpy', 'numpy', 'h5py', 'dask', 'pos_only', 'spec_only'])})
+    # index matrices stored as 8-bit integers on a side with MORE points than 8 bits can count (every index itself
+    # fits): anything the library counts in the element type of the matrix wraps around
+    for i in range({'quick': 4, 'thorough': 30, 'search': 16}[tier]):
+        rng = derived_rng(seed, 'C01w', i)
+        sizes = list(rng.choice([[3, 100], [100, 3], [2, 2, 70], [5, 60], [130, 2]]))
+        rate = list(range(len(sizes)))
+        rng.shuffle(rate)
+        big = {'sizes': sizes, 'rate': rate, 'labels': ['W' + gen.LETTERS[d] for d in range(len(sizes))],
+               'units': ['uw%d' % d for d in range(len(sizes))], 'values': [[3 * d + j for j in range(s)] for d, s in enumerate(sizes)]}
+        small = gen.gen_side(rng, 'V', 1, 2)
+        ds = {'pos': big, 'spec': small, 'dtype': 'f8', 'idx_dtype': 'u1'} if i % 2 == 0 else \
+            {'pos': dict(small, labels=['V' + l[1:] for l in small['labels']]), 'spec': big, 'dtype': 'f8', 'idx_dtype': 'u1'}
+        cases.append({'ds': ds, 'ops': [rng.choice(['toggle', 'read']) for _ in range(2)], 'sort_init': rng.random() < 0.5,
+                      'chunked': False, 'verbose': False, 'wrapper_lazy': False, 'anc_as': rng.choice(['h5py', 'numpy'])})
     return cases
 
 
